@@ -97,23 +97,27 @@ def handleMonoLabel : List String → String
     | _, _ => "bad-op"
   | _ => "bad-op"
 
-def handleMono : List String → String
+def handleMonoWith (asValue : Bool) : List String → String
   | [sig, inst, msig, callty, impls, ifaceM, implM, idx] =>
     let implTys := (if impls = "-" then [] else impls.splitOn ";").mapM parseTyS
     match parseTyS sig, parseTyS inst, parseTyS msig, parseTyS callty, implTys, parseNat? idx with
     | some sg, some ins, some ms, some ct, some its, some i =>
       let iface := ifaceM.splitOn "+"
       let implMs := (if implM = "-" then [] else implM.splitOn ";").map (fun s => s.splitOn "+")
-      match dispatch sg ins ms ct its with
+      match (if asValue then dispatchValue sg ins ms ct its else dispatch sg ins ms ct its) with
       | none => "impl=none"
       | some k =>
         match implMs[k]? with
         | none => "bad-op"
         | some ms =>
-          match methodByName iface ms i with
+          match (if asValue then methodOfValue iface ms i else methodByName iface ms i) with
           | some j => "impl=" ++ toString k ++ " method=" ++ (ms[j]?.getD "?")
           | none => "impl=" ++ toString k ++ " method=none"
     | _, _, _, _, _, _ => "bad-op"
   | _ => "bad-op"
+
+/-- `mono …`: a call of the interface method; `monov …`: the method used as a function value -/
+def handleMono : List String → String := handleMonoWith false
+def handleMonoV : List String → String := handleMonoWith true
 
 end Abra.Drv
